@@ -7,12 +7,15 @@
 //
 // Case string (also the --replay argument):
 //   T:<parent of G1>.<..>  P:<group of W1>.<W2>.<W3>  WE:i.i.i  GE:i.. K:k.k.k
-//   U:u D:d X:x N:n M:r.g.p S:s.s.s I:i Q:<len><a|s>...
+//   U:u D:d X:x N:n O:o M:r.g.p S:s.s.s I:i Q:<len><a|s>...
 //   parent -1 = FIELD; WE/GE index into the per-entity efficiency alphabets;
 //   K 0 producer (WCONHIST) 1 water injector 2 gas injector (WCONINJH);
 //   U 0 METRIC 1 FIELD 2 LAB 3 PVT-M; D start date index; X 1 = every efficiency factor moves to the next value of its
 //   alphabet at the second report step; N well naming (0: declared in name order, 1-5: other permutations of A B C,
 //   6: W_2 W_9 W_10); M tree change: a GRUPTREE after r TSTEPs (r >= 1; 0 = none) hangs group index g under p (-1 FIELD);
+//   O how the vectors enter the configuration: 0 listed in SUMMARY, 1 not listed (only the mandatory restart vectors are then
+//   evaluated), 2 SUMMARY lists none and a second SummaryConfig (built from a deck fragment listing all) is merge()d in,
+//   3 listed and merged, 4 not listed but required by an ACTIONX condition;
 //   S 0 open 1 shut 2 stop (cross-flow) 3 open with all computed rates exactly 0 4 stop with all rates 0;
 //   I 1 = evaluate report step 0 at t=0 first; Q evaluation sequence, element
 //   = length index (0: 1 d, 1: 10 d, 2: 0.5 d) + 'a' (closes its report step)
@@ -70,6 +73,8 @@ struct Case {
     int us = 0, start = 0, xe = 0, naming = 0;
     const char* wn(int w) const { return WNAMES[naming][w]; }
     int status[3] = {0, 0, 0};
+    int origin = 0;                  // how the vectors got into the SummaryConfig: 0 listed in SUMMARY, 1 not listed (mandatory restart vectors only), 2 merged in from a second SummaryConfig,
+                                     // 3 listed and merged, 4 required by an ACTIONX condition only
     int mr = 0, mg = 0, mp = -1;     // tree change: from schedule step mr >= 1 on (keyword after mr TSTEPs) group mg hangs under mp (-1 FIELD); mr = 0: none
     int parent(int g, int r) const { return (mr > 0 && r >= mr && g == mg) ? mp : par[g]; }
     int init = 0;
@@ -83,6 +88,7 @@ struct Case {
         s += " GE:"; for (int i = 0; i < ng; ++i) s += (i ? "." : "") + std::to_string(ge[i]);
         s += " K:"; for (int i = 0; i < 3; ++i) s += (i ? "." : "") + std::to_string(kind[i]);
         s += " U:" + std::to_string(us) + " D:" + std::to_string(start) + " X:" + std::to_string(xe) + " N:" + std::to_string(naming);
+        s += " O:" + std::to_string(origin);
         s += " M:" + std::to_string(mr) + "." + std::to_string(mg) + "." + std::to_string(mp);
         s += " S:"; for (int i = 0; i < 3; ++i) s += (i ? "." : "") + std::to_string(status[i]);
         s += " I:" + std::to_string(init) + " Q:";
@@ -115,6 +121,7 @@ struct Case {
             else if (k == "U") c.us = iv.at(0);
             else if (k == "D") c.start = iv.at(0);
             else if (k == "X") c.xe = iv.at(0);
+            else if (k == "O") { c.origin = iv.at(0); if (c.origin < 0 || c.origin > 4) throw std::runtime_error("bad origin"); }
             else if (k == "M") { c.mr = iv.at(0); c.mg = iv.at(1); c.mp = iv.at(2); }
             else if (k == "N") { c.naming = iv.at(0); if (c.naming < 0 || c.naming > 6) throw std::runtime_error("bad naming"); }
             else if (k == "S") for (int i = 0; i < 3; ++i) c.status[i] = iv.at(i);
@@ -183,6 +190,10 @@ static std::string render_schedule(const Case& c) {
         }
         if (!hp.empty()) s += "WCONHIST\n" + hp + "/\n";
         if (!hi.empty()) s += "WCONINJH\n" + hi + "/\n";
+        if (r == 0 && c.origin == 4) {       // vectors needed only because an (never true) ACTIONX condition mentions them
+            s += std::string("ACTIONX\n 'ACT1' 1 /\n WOPT '") + c.wn(0) + "' > 1.0E+30 AND /\n WOPR '" + c.wn(1) + "' > 1.0E+30 AND /\n WWIT '" + c.wn(1) + "' > 1.0E+30 AND /\n WLPT '" + c.wn(2) + "' > 1.0E+30 AND /\n WGITH '" + c.wn(2) + "' > 1.0E+30 AND /\n" +
+                 " GOPT 'G1' > 1.0E+30 AND /\n GGITH 'G2' > 1.0E+30 AND /\n GLPR 'G1' > 1.0E+30 AND /\n GWCT 'G2' > 1.0E+30 AND /\n FOPT > 1.0E+30 AND /\n FOPR > 1.0E+30 AND /\n FWITH > 1.0E+30 AND /\n FLPT > 1.0E+30 /\n/\nWELOPEN\n '" + c.wn(0) + "' OPEN /\n/\nENDACTIO\n";
+        }
         if (r == 0) {
             std::string we, ge;
             for (int w = 0; w < 3; ++w) if (c.we[w]) we += std::string(" '") + c.wn(w) + "' " + num(WEF[w][c.we[w]]) + " /\n";
@@ -204,9 +215,11 @@ static std::string render_schedule(const Case& c) {
 
 static std::string render_head(int us, int start) {
     const StartDate& sd = STARTS[start];
-    return std::string("RUNSPEC\nDIMENS\n 3 3 3 /\nOIL\nWATER\nGAS\n") + USYS[us] + "\nWELLDIMS\n 4 5 6 4 /\nSTART\n " + std::to_string(sd.d) + " " + sd.mon + " " + std::to_string(sd.y) +
+    return std::string("RUNSPEC\nDIMENS\n 3 3 3 /\nOIL\nWATER\nGAS\n") + USYS[us] + "\nWELLDIMS\n 4 5 6 4 /\nACTDIMS\n 2 50 80 20 /\nSTART\n " + std::to_string(sd.d) + " " + sd.mon + " " + std::to_string(sd.y) +
            " /\nGRID\nDX\n 27*100 /\nDY\n 27*100 /\nDZ\n 27*10 /\nTOPS\n 9*2000 /\nPORO\n 27*0.3 /\nPERMX\n 27*100 /\nPERMY\n 27*100 /\nPERMZ\n 27*10 /\n";
 }
+static const char* MIN_SUMMARY = "TIMESTEP\nDATE\n";
+static const std::string& section_for(const Case& c) { static const std::string m = MIN_SUMMARY; return (c.origin == 0 || c.origin == 3) ? g_summary_section : m; }
 static std::string render(const Case& c, const std::string& summary) { return render_head(c.us, c.start) + "SUMMARY\n" + summary + render_schedule(c); }
 
 // ------------------------------------------------------ built real model ---
@@ -231,6 +244,12 @@ static uint64_t g_builds = 0;
 // input must reproduce with the complete deck before it is reported.
 static bool g_full_deck = false;
 static std::map<std::string, std::unique_ptr<Deck>> g_sumdeck;
+static const Deck& summary_fragment(const Case& c, const std::string& section) {     // RUNSPEC+GRID+SUMMARY only, parsed once
+    std::string sk = std::to_string(c.us) + "/" + std::to_string(c.start) + "/" + std::to_string(c.ng) + "/" + (&section == &g_summary_section ? "all" : "min");
+    auto& sd2 = g_sumdeck[sk];
+    if (!sd2) sd2 = std::make_unique<Deck>(g_parser->parseString(render_head(c.us, c.start) + "SUMMARY\n" + section + "SCHEDULE\nEND\n"));
+    return *sd2;
+}
 static Built& build(const Case& c) {
     std::string key = c.static_key() + (g_full_deck ? " full" : "");
     if (g_built && g_built->key == key) return *g_built;
@@ -239,17 +258,18 @@ static Built& build(const Case& c) {
     try {
         b->es = &es_for(c.us, c.start);
         if (g_full_deck) {
-            auto deck = g_parser->parseString(render(c, g_summary_section));
+            auto deck = g_parser->parseString(render(c, section_for(c)));
             b->sched = std::make_unique<Schedule>(deck, *b->es, g_python);
             b->cfg = std::make_unique<SummaryConfig>(deck, *b->sched, b->es->fieldProps(), b->es->aquifer());
         } else {
             const StartDate& sd = STARTS[c.start];
-            auto sdeck = g_parser->parseString(std::string("RUNSPEC\nDIMENS\n 3 3 3 /\nOIL\nWATER\nGAS\n") + USYS[c.us] + "\nWELLDIMS\n 4 5 6 4 /\nSTART\n " + std::to_string(sd.d) + " " + sd.mon + " " + std::to_string(sd.y) + " /\n" + render_schedule(c));
+            auto sdeck = g_parser->parseString(std::string("RUNSPEC\nDIMENS\n 3 3 3 /\nOIL\nWATER\nGAS\n") + USYS[c.us] + "\nWELLDIMS\n 4 5 6 4 /\nACTDIMS\n 2 50 80 20 /\nSTART\n " + std::to_string(sd.d) + " " + sd.mon + " " + std::to_string(sd.y) + " /\n" + render_schedule(c));
             b->sched = std::make_unique<Schedule>(sdeck, *b->es, g_python);
-            std::string sk = std::to_string(c.us) + "/" + std::to_string(c.start) + "/" + std::to_string(c.ng);
-            auto& sd2 = g_sumdeck[sk];
-            if (!sd2) sd2 = std::make_unique<Deck>(g_parser->parseString(render_head(c.us, c.start) + "SUMMARY\n" + g_summary_section + "SCHEDULE\nEND\n"));
-            b->cfg = std::make_unique<SummaryConfig>(*sd2, *b->sched, b->es->fieldProps(), b->es->aquifer());
+            b->cfg = std::make_unique<SummaryConfig>(summary_fragment(c, section_for(c)), *b->sched, b->es->fieldProps(), b->es->aquifer());
+        }
+        if (c.origin == 2 || c.origin == 3) {    // a second configuration, built from a deck fragment that lists every vector, merged in
+            SummaryConfig second(summary_fragment(c, g_summary_section), *b->sched, b->es->fieldProps(), b->es->aquifer());
+            b->cfg->merge(second);
         }
         b->sum = std::make_unique<out::Summary>(*b->cfg, *b->es, b->es->getInputGrid(), *b->sched, "C09");
     } catch (const std::exception& e) { b->error = e.what(); b->sum.reset(); }
@@ -401,7 +421,7 @@ static bool close_enough(double got, double want) {
     return std::fabs(got - want) <= 1e-10 * std::max(std::fabs(got), std::fabs(want)) + 1e-13;
 }
 
-struct Outcome { std::vector<Mismatch> mm; uint64_t obs = 1469598103934665603ull; long compared = 0; std::string error; };
+struct Outcome { std::vector<Mismatch> mm; uint64_t obs = 1469598103934665603ull; long compared = 0, absent = 0; std::string error; };
 
 static Outcome run_case(const Case& c) {
     Outcome o;
@@ -443,6 +463,7 @@ static Outcome run_case(const Case& c) {
                 else if (kw.ent == 'G') { std::string g = node_name(c, n); has = st.has_group_var(g, kw.name); if (has) got = st.get_group_var(g, kw.name); }
                 else { has = st.has(kw.name); if (has) got = st.get(kw.name); }
                 o.obs = vf::fnv(&got, 8, o.obs); ++o.compared;
+                if (!has && (c.origin == 1 || c.origin == 4)) { ++o.absent; --o.compared; continue; }      // not requested in this variant: nothing to judge
                 if (!has || !close_enough(got, expect[i][n])) o.mm.push_back({(int)i, n, (int)k, got, expect[i][n], !has});
             }
         }
@@ -461,7 +482,9 @@ static std::string diagnose(Case& c, int kw, const Mismatch& first) {
     // order matters only for the label; every reset that keeps the failure is kept, so the reported case is small
     bool need_units = false, need_efac = false, need_status = false, need_kind = false, need_seq = false;
     { Case d = c; d.us = 0; if (c.us != 0) { if (fails(d, kw)) c = d; else need_units = true; } }
-    bool need_naming = false, need_move = false;
+    bool need_naming = false, need_move = false, need_origin = false;
+    const int origin0 = c.origin;
+    { Case d = c; d.origin = 0; if (c.origin != 0) { if (fails(d, kw)) c = d; else need_origin = true; } }
     { Case d = c; d.mr = 0; d.mg = 0; d.mp = -1; if (c.mr > 0) { if (fails(d, kw)) c = d; else need_move = true; } }
     { Case d = c; d.naming = 0; if (c.naming != 0) { if (fails(d, kw)) c = d; else need_naming = true; } }
     { Case d = c; bool any = false; for (int i = 0; i < 3; ++i) { any |= d.we[i] != 0; d.we[i] = 0; } for (int i = 0; i < 4; ++i) { any |= d.ge[i] != 0; d.ge[i] = 0; } any |= d.xe != 0; d.xe = 0; if (any) { if (fails(d, kw)) c = d; else need_efac = true; } }
@@ -483,6 +506,7 @@ static std::string diagnose(Case& c, int kw, const Mismatch& first) {
     while (c.seq.size() > 1) { Case d = c; d.seq.pop_back(); d.seq.back().second = 0; if (fails(d, kw)) c = d; else break; }
     if (need_units) return std::string("units:") + USYS[c.us];
     if (k.cls == K_CAL) return "calendar";
+    if (need_origin) { static const char* ON[5] = {"listed", "mandatory-not-listed", "merged", "listed-and-merged", "actionx-required"}; return std::string("config-origin:") + ON[origin0]; }
     if (need_move) return "hierarchy:tree-change";
     if (need_efac) return need_naming ? "efac:declaration-order" : "efac";
     if (need_naming) return "declaration-order";
@@ -500,6 +524,7 @@ static std::string diagnose(Case& c, int kw, const Mismatch& first) {
 
 static std::map<std::string, int> g_diag_count;
 static long g_diag_runs = 0;
+static int g_diag_origin[5] = {0, 0, 0, 0, 0};      // diagnoses spent on cases of a non-default configuration origin (one defect there hits many vectors)
 
 static void do_case_report(const Case& c, const Outcome& o);
 static void do_case(const Case& c) {
@@ -513,12 +538,14 @@ static void do_case(const Case& c) {
     }
     R->observe(o.obs);
     R->count("values_compared", o.compared);
+    if (o.absent) R->count("values_absent_because_not_requested", o.absent);
     if (R->samples.size() < 2 && (vf::fnv(cs) % 1009) == 0) R->sample_str(cs);
     if (o.mm.empty()) return;
     R->count("mismatching_values", (long long)o.mm.size());
     {   // everything already diagnosed often enough: count only
         bool todo = false;
-        for (const auto& m : o.mm) if (g_diag_count[g_kws[m.kw].name] < 3 && g_diag_runs < 400) { todo = true; break; }
+        if (!(c.origin != 0 && g_diag_origin[c.origin] >= 6))
+            for (const auto& m : o.mm) if (g_diag_count[g_kws[m.kw].name] < 3 && g_diag_runs < 400) { todo = true; break; }
         if (!todo) { R->count("cases_with_mismatch_not_diagnosed"); return; }
     }
     if (!g_full_deck) {                        // confirm on one complete deck, diagnose there
@@ -535,8 +562,8 @@ static void do_case_report(const Case& c, const Outcome& o) {
     for (const auto& m : o.mm) {
         if (!seen.insert(m.kw).second) continue;
         const Kw& k = g_kws[m.kw];
-        if (g_diag_count[k.name] >= 3 || g_diag_runs >= 400) { R->count("mismatches_not_diagnosed"); continue; }
-        ++g_diag_count[k.name]; ++g_diag_runs;
+        if (g_diag_count[k.name] >= 3 || g_diag_runs >= 400 || (c.origin != 0 && g_diag_origin[c.origin] >= 6)) { R->count("mismatches_not_diagnosed"); continue; }
+        ++g_diag_count[k.name]; ++g_diag_runs; if (c.origin != 0) ++g_diag_origin[c.origin];
         Case mc = c; Mismatch first = m;
         std::string what = diagnose(mc, m.kw, m);
         // report on the minimised case
@@ -545,7 +572,9 @@ static void do_case_report(const Case& c, const Outcome& o) {
         std::string where = first.node < 0 ? k.name : k.name + ":" + node_name(mc, first.node);
         std::string msg = where + " = " + (first.missing ? std::string("<absent>") : vf::fmt17(first.got)) + " after evaluation " + std::to_string(first.eval) + ", reference " + vf::fmt17(first.want) +
                           " [" + what + "] in " + mc.str() + " (found in " + cs + ")";
-        R->violation("C09:" + k.name + ":" + what, msg, "{\"case\": " + vf::jstr(mc.str()) + ", \"found_in\": " + vf::jstr(cs) + ", \"vector\": " + vf::jstr(where) + ", \"observed\": " + vf::jstr(vf::fmt17(first.got)) + ", \"expected\": " + vf::jstr(vf::fmt17(first.want)) + ", \"deck\": " + vf::jstr(render(mc, g_summary_section)) + "}");
+        // a defect of the configuration path hits every cumulative total alike: one key for all totals, per keyword otherwise
+        const std::string fam = (what.rfind("config-origin:", 0) == 0 && k.total) ? "totals" : k.name;
+        R->violation("C09:" + fam + ":" + what, msg, "{\"case\": " + vf::jstr(mc.str()) + ", \"found_in\": " + vf::jstr(cs) + ", \"vector\": " + vf::jstr(where) + ", \"observed\": " + vf::jstr(vf::fmt17(first.got)) + ", \"expected\": " + vf::jstr(vf::fmt17(first.want)) + ", \"deck\": " + vf::jstr(render(mc, g_summary_section)) + "}");
     }
 }
 
@@ -641,6 +670,7 @@ int main(int argc, char** argv) {
         "efficiency convention as documented in Summary.cpp and pinned by tests/test_Summary.cpp(efficiency_factor): a well's own rate is unweighted, a group's rate carries the factors of wells and groups strictly below it, FIELD rates and every cumulative total carry the well's factor and the factor of every group up to FIELD",
         "dynamically SHUT wells are handed non-zero rates and observed rates so that 'contribute nothing' is not vacuous; STOP wells carry small cross-flow rates of mixed sign and contribute by sign; OPEN/STOP wells whose six computed rates are all exactly 0 contribute 0 to computed vectors but their observed WCONHIST/WCONINJH rates are still echoed in every history rate, ratio and total (history is independent of the computed rates for every well that is not shut)",
         "wells only in leaf groups (the library rejects groups with both wells and sub-groups); at most one group is re-parented (one GRUPTREE at a later report step; the reference sums descendants and efficiency chains over the tree in force at each evaluated step), wells never change group or kind, efficiency factors change at most once (report step 2); rates are fingerprints, not physical solutions",
+        "configuration origins: 'merged' calls the public SummaryConfig::merge() with a second configuration built from a deck fragment (RUNSPEC+GRID+SUMMARY) against the same Schedule; in the not-listed and ACTIONX variants vectors that are not evaluated at all are skipped, not judged",
         "vectors outside W/G/F x {O,W,G,L,V} x {P,I} x {R,T,RH,TH}, the five ratios (+H) and the time vectors are not covered; connection/segment/region vectors not covered"};
     if (!setup_catalogue()) return run.finish();
 
@@ -667,7 +697,7 @@ int main(int argc, char** argv) {
     //      default: all open producers, efficiency 1, METRIC, start 0, one 1 d step, no step-0 evaluation
     //      thorough adds the third deviation with a 4-element sequence alphabet (subset of the <= 2-evaluation sequences)
     const std::vector<std::vector<std::pair<int, int>>> seq4 = {{{0, 0}}, {{1, 0}, {2, 0}}, {{0, 1}, {1, 0}}, {{2, 0}, {0, 0}}};
-    auto regimeA = [&](int budget, const std::vector<std::vector<std::pair<int, int>>>& seqA, int nstatus, int skip_upto, const char* name) {
+    auto regimeA = [&](int budget, const std::vector<std::vector<std::pair<int, int>>>& seqA, int nstatus, int norigin, int skip_upto, const char* name) {
         const int ng = 3; use_summary_for(ng);
         const auto& tr = tr3;
         vf::explore([&](vf::Chooser& ch) {
@@ -682,6 +712,7 @@ int main(int argc, char** argv) {
             for (int g = 0; g < ng; ++g) c.ge[g] = ch.dev(3);
             c.xe = ch.dev(2);
             { static const int NA[4] = {0, 1, 2, 6}; c.naming = NA[ch.dev(4)]; }     // name order, reverse, B A C, W_2 W_9 W_10
+            c.origin = ch.dev(norigin);                                               // how the vectors entered the configuration
             int mv = ch.dev(1 + ng * (ng + 1));                                       // re-parenting at schedule step 1: (group, new parent) code; inadmissible ones are skipped below
             if (mv) { c.mr = 1; c.mg = (mv - 1) / (ng + 1); c.mp = (mv - 1) % (ng + 1) - 1; }
             c.seq = seqA[ch.dev((int)seqA.size())];
@@ -692,8 +723,8 @@ int main(int argc, char** argv) {
             exec(name, c);
         }, budget, stop);
     };
-    regimeA(2, seq2, run.thorough() ? 5 : 4, -1, "A_dev2");      // status alphabet: quick OPEN SHUT STOP OPEN-zero, thorough + STOP-zero
-    if (run.thorough()) regimeA(3, seq4, 3, 2, "A_dev3");         // third deviation: OPEN SHUT STOP only
+    regimeA(2, seq2, run.thorough() ? 5 : 4, run.thorough() ? 5 : 1, -1, "A_dev2");      // status alphabet: quick OPEN SHUT STOP OPEN-zero, thorough + STOP-zero
+    if (run.thorough()) regimeA(3, seq4, 3, 1, 2, "A_dev3");         // third deviation: OPEN SHUT STOP only
 
     // ---- regime B: every evaluation sequence (<= 3 evaluations, ministep patterns) x unit system x step-0 evaluation on three rich models
     {
@@ -706,6 +737,26 @@ int main(int argc, char** argv) {
             if (stop()) break;
             Case c = Case::parse(models[m]); c.us = us; c.start = (int)((q + m) % 3); c.seq = seq3[q]; c.init = init; c.xe = (int)((q + m) % 2);
             exec("B_sequences_x_units", c);
+        }
+    }
+
+    // ---- regime G: how the vectors got into the configuration.  The same model evaluated with the vectors listed in SUMMARY (all other
+    //      regimes), not listed (mandatory restart vectors only), merged in from a second SummaryConfig, listed and merged, or required
+    //      by an ACTIONX condition only: every value present in SummaryState must equal the same reference (each total accumulated once)
+    {
+        use_summary_for(3);
+        static const int KK[3][3] = {{0, 0, 0}, {0, 1, 2}, {2, 0, 1}};
+        for (auto& t : tr3) {
+            Case c; c.ng = 3; set_tree(c, t);
+            int n = 0;
+            for (auto& pl : placements(c)) for (int og = 1; og <= 4; ++og) for (int kk = 0; kk < 3; ++kk) for (int e = 0; e < (run.thorough() ? 4 : 2) && !stop(); ++e, ++n) {
+                for (int w = 0; w < 3; ++w) { c.wg[w] = pl[w]; c.kind[w] = KK[kk][w]; c.we[w] = e == 0 ? 0 : 1 + ((w + e) & 1); c.ge[w] = e == 0 ? 0 : 1 + ((w + e + 1) & 1); }
+                c.origin = og; c.xe = e == 3; c.us = (e == 2) ? 1 : 0;
+                c.status[0] = 0; c.status[1] = (n % 3 == 1) ? 3 : 0; c.status[2] = (n % 3 == 2) ? 1 : 0;
+                c.init = n & 1;
+                c.seq = (n % 2) ? std::vector<std::pair<int, int>>{{1, 1}, {0, 0}, {2, 0}} : std::vector<std::pair<int, int>>{{0, 0}, {2, 0}};
+                exec("G_config_origin", c);
+            }
         }
     }
 
@@ -829,10 +880,10 @@ int main(int argc, char** argv) {
     if (run.counters["violations_total"] > 300) { run.exhaustive = false; run.cap_note += "stopped after >300 mismatching vectors; "; }
     run.count("model_builds", (long long)g_builds);
     run.rule = std::string("models: 3 wells (fingerprint rates per well x phase x evaluation, sign by kind) in leaf groups of a group forest under FIELD; dimensions: forest (all 16 labelled forests of 3 groups") +
-        (run.thorough() ? "; all 125 of 4 groups, depth <= 4" : "") + ") x leaf placement of the wells x WEFAC/GEFAC in {1, ~0.5, ~0.25} distinct per entity x kind {producer WCONHIST, water injector, gas injector WCONINJH} x dynamic status {OPEN, SHUT, STOP with cross-flow, OPEN with all six computed rates exactly 0, STOP with all rates 0} x {METRIC, FIELD, LAB, PVT-M} x 3 start dates x evaluation sequences over {1 d, 10 d, 0.5 d} with ministep flags x {with, without} step-0 evaluation x {constant, changed at report step 2} efficiency factors x well naming {declared in name order W1 W2 W3; the 5 other permutations of OP_A OP_B OP_C; W_2 W_9 W_10 (numeric, not lexicographic)} x group tree {constant; one group re-parented by a later GRUPTREE}. " +
+        (run.thorough() ? "; all 125 of 4 groups, depth <= 4" : "") + ") x leaf placement of the wells x WEFAC/GEFAC in {1, ~0.5, ~0.25} distinct per entity x kind {producer WCONHIST, water injector, gas injector WCONINJH} x dynamic status {OPEN, SHUT, STOP with cross-flow, OPEN with all six computed rates exactly 0, STOP with all rates 0} x {METRIC, FIELD, LAB, PVT-M} x 3 start dates x evaluation sequences over {1 d, 10 d, 0.5 d} with ministep flags x {with, without} step-0 evaluation x {constant, changed at report step 2} efficiency factors x well naming {declared in name order W1 W2 W3; the 5 other permutations of OP_A OP_B OP_C; W_2 W_9 W_10 (numeric, not lexicographic)} x group tree {constant; one group re-parented by a later GRUPTREE} x origin of the vectors in the configuration {listed in SUMMARY; not listed (mandatory restart vectors); merged from a second SummaryConfig; listed and merged; required by an ACTIONX condition}. " +
         "A: every combination with <= 2 deviations from the default (open producers, constant efficiency 1, METRIC, one 1 d step, no step-0 evaluation) over all 105 forest x placement pairs, all 21 sequences of <= 2 evaluations" +
         (run.thorough() ? ", and every combination with exactly 3 deviations where the sequence is one of {1d; 10d,0.5d; 1d(ministep),10d; 0.5d,1d}; " : "; ") +
-        "(naming alphabet in A: name order, reverse, B A C, W_2 W_9 W_10; status alphabet in A: " + (run.thorough() ? "all five for <= 2 deviations, OPEN/SHUT/STOP for the third" : "OPEN, SHUT, STOP, OPEN-zero") + "; a re-parenting at schedule step 1 is one more deviation in A, executed where the sequence has >= 2 report steps); F: every admissible (group, new parent) re-parenting of every forest x placement pair" + (run.thorough() ? " at schedule step 1 or 2 (3 report steps) or 1 (2 report steps, ministep) x complete 2^6 efficiency product, plus efficiency change at step 1, plus all 4-group forests x placements x moves at step 1 or 2" : " at schedule step 1 or 2 (3 report steps, evaluated before and after) x 3 efficiency patterns") + "; E: 105 pairs x 3 kind assignments x 9 status patterns with zero-rate OPEN/STOP wells (one well at a time, all, mixed with SHUT/STOP), all factors non-unit; B: all 129 sequences of <= 3 evaluations x 4 unit systems x step-0 evaluation on 3 fixed rich models" +
+        "(naming alphabet in A: name order, reverse, B A C, W_2 W_9 W_10; status alphabet in A: " + (run.thorough() ? "all five for <= 2 deviations, OPEN/SHUT/STOP for the third" : "OPEN, SHUT, STOP, OPEN-zero") + "; a re-parenting at schedule step 1 is one more deviation in A, executed where the sequence has >= 2 report steps)" + (run.thorough() ? "; the five configuration origins are one more deviation point for <= 2 deviations" : "") + "; G: 4 non-listed configuration origins x 105 pairs x 3 kind assignments x " + (run.thorough() ? "4" : "2") + " efficiency patterns (status, step-0 evaluation and sequence rotated), every value present in SummaryState judged by the same reference; F: every admissible (group, new parent) re-parenting of every forest x placement pair" + (run.thorough() ? " at schedule step 1 or 2 (3 report steps) or 1 (2 report steps, ministep) x complete 2^6 efficiency product, plus efficiency change at step 1, plus all 4-group forests x placements x moves at step 1 or 2" : " at schedule step 1 or 2 (3 report steps, evaluated before and after) x 3 efficiency patterns") + "; E: 105 pairs x 3 kind assignments x 9 status patterns with zero-rate OPEN/STOP wells (one well at a time, all, mixed with SHUT/STOP), all factors non-unit; B: all 129 sequences of <= 3 evaluations x 4 unit systems x step-0 evaluation on 3 fixed rich models" +
         (run.thorough() ? "; D: 6 non-default namings x 105 pairs x complete 2^6 efficiency product" : "; D: 6 non-default namings x 105 pairs x all factors non-unit") +
         (run.thorough() ? "; C1: 105 pairs x complete 3^6 efficiency product x 2 kind assignments; C2: 105 pairs x 27 kind x 64 status assignments over {OPEN, SHUT, STOP, OPEN-zero}; C3: 1420 pairs (4 groups) x complete 2^7 efficiency product; C4: 450 pairs (4 groups, increasing forests) x 3-valued efficiency factors on <= 2 entities" : "") +
         ". Oracle: after every Summary::eval each of the checked vectors (see notes.vectors_checked) at every well/group/FIELD node equals the harness reference (rel 1e-10). distinct = distinct vectors of all observed values";
